@@ -186,6 +186,32 @@ Proof.
       destruct (Z.ltb_spec i nk); [exfalso; lia|exact H].
 Qed.
 
+Lemma compat_lines_of_list t P Q : forall rest ck cv,
+  inc ck rest -> first_gt P rest -> Q <= klast ck rest -> compat_list t Q (ck, cv) rest ->
+  forall i, Z.max ck P <= i < Q -> compat t (vfrom cv rest i).
+Proof.
+  induction rest as [|[nk nv] rest IH]; intros ck cv Hinc Hgt Hk Hc i Hi.
+  - simpl in Hk. exfalso; lia.
+  - destruct Hinc as [Hn Hinc]. simpl in Hgt, Hk. cbn [compat_list fst snd] in Hc.
+    replace (ck <? Q) with true in Hc by (symmetry; apply Z.ltb_lt; lia).
+    destruct Hc as [Hcv Hc]. cbn [vfrom]. destruct (Z.ltb_spec i nk); [exact Hcv|].
+    apply (IH nk nv); auto; [|lia].
+    destruct rest as [|[k2 v2] r2]; simpl in *; auto. lia.
+Qed.
+
+Lemma compat_list_lines L ok ov R t P del :
+  inc (-1) (L ++ (ok, ov) :: R) -> ok <= P -> first_gt P R -> 0 <= P ->
+  P + del <= slen (L ++ (ok, ov) :: R) ->
+  compat_list t (P + del) (ok, ov) R -> compat_lines (L ++ (ok, ov) :: R) t P del.
+Proof.
+  intros Hinc Hok Hgt HP Hlen H i Hi. destruct (inc_decomp _ _ _ Hinc) as (HL & HLo & HR). cbn [fst] in *.
+  rewrite sval_L_cons by exact Hinc.
+  destruct (Z.ltb_spec i (klast (-1) L)); [exfalso; lia|].
+  destruct (Z.ltb_spec i ok); [exfalso; lia|].
+  apply (compat_lines_of_list t P (P + del) R ok ov); auto; [|lia].
+  unfold slen in Hlen. rewrite klast_app in Hlen. exact Hlen.
+Qed.
+
 Lemma compat_lines_list L ok ov R t P del :
   inc (-1) (L ++ (ok, ov) :: R) -> ok <= P -> first_gt P R -> 0 < del ->
   compat_lines (L ++ (ok, ov) :: R) t P del -> compat_list t (P + del) (ok, ov) R.
